@@ -70,8 +70,6 @@ func (p *process) Invoke(msgs []Envelope) {
 		// If we recovered, we buffer up all the messages that we could not process
 		// so we can retry them on the next restart.
 		if v := recover(); v != nil {
-			p.stopReceiver()
-
 			p.mbuffer = make([]Envelope, nmsg-nproc)
 			for i := 0; i < nmsg-nproc; i++ {
 				p.mbuffer[i] = msgs[i+nproc]
@@ -120,7 +118,6 @@ func (p *process) Start() {
 	p.context.receiver = recv
 	defer func() {
 		if v := recover(); v != nil {
-			p.stopReceiver()
 			p.tryRestart(v)
 		}
 	}()
@@ -154,6 +151,7 @@ func (p *process) tryRestart(v any) {
 	// back up. NOTE: not sure if that is the best option. What if that
 	// node never comes back up again?
 	if msg, ok := v.(*InternalError); ok {
+		p.stopReceiver()
 		slog.Error(msg.From, "err", msg.Err)
 		time.Sleep(p.Opts.RestartDelay)
 		p.Start()
@@ -167,10 +165,13 @@ func (p *process) tryRestart(v any) {
 			PID:       p.pid,
 			Timestamp: time.Now(),
 		})
+		// cleanup tells the receiver that it is stopped.
 		p.cleanup(nil)
 		return
 	}
 
+	// The crashed incarnation is told Stopped (exactly once) before it is replaced.
+	p.stopReceiver()
 	p.restarts++
 	// Restart the process after its restartDelay
 	p.context.engine.BroadcastEvent(ActorRestartedEvent{
